@@ -349,9 +349,12 @@ fn boundary_sweep(id: i32, cp: CodePage, thorough: bool) -> (u64, Vec<V>) {
 /// "?"), unmappable characters themselves, and a multi-byte character.  The
 /// encoding of each must be the concatenation of its characters' encodings.
 fn short_string_sweep(id: i32, cp: CodePage, thorough: bool) -> (u64, Vec<V>) {
-    let mut alphabet: Vec<char> = vec!['a', '&', '#', '1', ';', '?'];
+    // 'e' + U+0301 / 'c' + U+0327: a letter followed by a combining mark that
+    // most legacy pages lack (they have the precomposed letter instead)
+    let mut alphabet: Vec<char> = vec!['a', '&', '#', '1', ';', '?', 'e', '\u{301}', '\u{327}'];
     if thorough {
         alphabet.push('x');
+        alphabet.push('\u{feff}');
     }
     for (name, c) in class_chars(id) {
         if name != "ascii" && name != "non-ascii-1-byte" && !alphabet.contains(&c) {
@@ -543,7 +546,7 @@ pub fn run(tier: Tier) -> i32 {
     rep.set("ids_checked", nid);
     rep.set("per_page", serde_json::Value::Object(per_page.into_iter().collect()));
     rep.set("exhaustive", true);
-    rep.set("rule", "all 1,112,064 Unicode scalar values x 26 code pages (encode, decode back, compare with the named encoding); every 1- and 2-byte sequence and lead-restricted 3-byte sequences per page for decode; strings with every prefix length around the 1024-byte internal buffer x every character class at the boundary; every string of <= 5 (thorough 6) characters over {a & # 1 ; ?, (x), a multi-byte character, an unmappable BMP and an unmappable astral character} against the concatenation of its characters' encodings; from_id over +-70000 and range ends (thorough: all 2^32). distinct_nontrivial = (character, page) pairs that have a round-tripping non-'?' encoding");
+    rep.set("rule", "all 1,112,064 Unicode scalar values x 26 code pages (encode, decode back, compare with the named encoding); every 1- and 2-byte sequence and lead-restricted 3-byte sequences per page for decode; strings with every prefix length around the 1024-byte internal buffer x every character class at the boundary; every string of <= 5 (thorough 6) characters over {a & # 1 ; ? e U+0301 U+0327, (x, U+FEFF), a multi-byte character, an unmappable BMP and an unmappable astral character} against the concatenation of its characters' encodings; from_id over +-70000 and range ends (thorough: all 2^32). distinct_nontrivial = (character, page) pairs that have a round-tripping non-'?' encoding");
     rep.sample(json!({"cp": 932, "char": "あ", "lib_bytes": CodePage::from_id(932).map(|c| c.encode("あ")), "ref_bytes": ref_encode(932, "あ")}));
     rep.sample(json!({"cp": 1252, "bytes": [0xFF, 0xFE, 0x61, 0x00], "lib": CodePage::from_id(1252).map(|c| c.decode(&[0xFF, 0xFE, 0x61, 0x00])), "ref": ref_decode(1252, &[0xFF, 0xFE, 0x61, 0x00])}));
     rep.finish()
